@@ -89,8 +89,18 @@ class PathDumper(yaml.SafeDumper):
 
 PathLoader.add_path_resolver('!root', [])
 PathLoader.add_path_resolver('!item', ['items', None], dict)
-PathLoader.add_constructor('!root', yaml.SafeLoader.construct_yaml_map)
-PathLoader.add_constructor('!item', yaml.SafeLoader.construct_yaml_map)
+
+
+def _construct_any(loader, node):
+    if isinstance(node, yaml.MappingNode):
+        return loader.construct_mapping(node, deep=True)
+    if isinstance(node, yaml.SequenceNode):
+        return loader.construct_sequence(node, deep=True)
+    return loader.construct_scalar(node)
+
+
+PathLoader.add_constructor('!root', _construct_any)
+PathLoader.add_constructor('!item', _construct_any)
 PathDumper.add_path_resolver('!root', [])
 PathDumper.add_path_resolver('!item', ['items', None], dict)
 PATH_DOC = 'items:\n- {a: 1}\n- {b: 2}\nname: x\n'
@@ -259,6 +269,15 @@ class Boom(object):
         self.n = n
 
 
+class BoomStr(str):
+    """a user type that is never anchored (ignore_aliases is true for str / int subclasses)"""
+    n = property(lambda self: int(self))
+
+
+class BoomInt(int):
+    n = property(lambda self: int(self))
+
+
 def callback_fault(k: int, kind: int, side: int) -> str:
     """a user constructor / representer raising at its k-th invocation"""
     exc = make_exc(kind)
@@ -289,6 +308,8 @@ def callback_fault(k: int, kind: int, side: int) -> str:
         return dumper.represent_scalar('!boom', str(data.n))
     L.add_constructor('!boom', ctor)
     D.add_representer(Boom, repr_)
+    D.add_representer(BoomStr, repr_)
+    D.add_representer(BoomInt, repr_)
     with untraced():
         before = global_snapshot()
     got = None
@@ -297,7 +318,7 @@ def callback_fault(k: int, kind: int, side: int) -> str:
         if side == 0:
             yaml.load('- !boom 1\n- {k: !boom 2}\n- [!boom 3, !boom 4]\n', Loader=L)
         else:
-            yaml.dump([Boom(1), {'k': Boom(2)}, [Boom(3), Boom(4)]], out, Dumper=D)
+            yaml.dump([Boom(1), {'k': BoomStr('2')}, [BoomInt(3), Boom(4)]], out, Dumper=D)
     except BaseException as e:    # noqa
         got = e
     reach()
@@ -308,7 +329,7 @@ def callback_fault(k: int, kind: int, side: int) -> str:
     if side == 1:
         ok_out = FaultyOut(-1, -1, None)
         counter['n'] = 100
-        yaml.dump([Boom(1), {'k': Boom(2)}, [Boom(3), Boom(4)]], ok_out, Dumper=D)
+        yaml.dump([Boom(1), {'k': BoomStr('2')}, [BoomInt(3), Boom(4)]], ok_out, Dumper=D)
         if not ok_out.text().startswith(out.text()):
             return fail(P, 'PREFIX output written before the callback fault is not a prefix of the fault-free output', kind=kind)
     try:
